@@ -168,18 +168,18 @@ def holdsForWholeBody (m : Verif.Gen.LockFacts.Method) (mode : Verif.Gen.LockFac
     block cache's `bc.mu` (a writer to the block cannot interleave with its commit); `StateCache.Get` takes no lock (the model's readers never block).
     The model treats every block / transaction cache operation as one atomic step on the strength of this table. -/
 theorem layer_lock_facts :
-    holdsForWholeBody Verif.Gen.LockFacts.blockCache_Get .write "mu" = true ∧
-    holdsForWholeBody Verif.Gen.LockFacts.blockCache_Set .write "mu" = true ∧
-    holdsForWholeBody Verif.Gen.LockFacts.blockCache_setValue .write "mu" = true ∧
-    holdsForWholeBody Verif.Gen.LockFacts.blockCache_remove .write "mu" = true ∧
-    holdsForWholeBody Verif.Gen.LockFacts.blockCache_SetBlockHash .write "mu" = true ∧
-    holdsForWholeBody Verif.Gen.LockFacts.transactionCache_Set .write "mu" = true ∧
-    holdsForWholeBody Verif.Gen.LockFacts.transactionCache_Remove .write "mu" = true ∧
-    holdsForWholeBody Verif.Gen.LockFacts.transactionCache_Commit .write "mu" = true ∧
-    holdsForWholeBody Verif.Gen.LockFacts.transactionCache_Get .read "mu" = true ∧
-    holdsForWholeBody Verif.Gen.LockFacts.stateCache_commit .write "lock" = true ∧
+    holdsForWholeBody Verif.Gen.LockFacts.blockCache_Get .write Verif.Gen.LockFacts.blockCacheInfo.primary = true ∧
+    holdsForWholeBody Verif.Gen.LockFacts.blockCache_Set .write Verif.Gen.LockFacts.blockCacheInfo.primary = true ∧
+    holdsForWholeBody Verif.Gen.LockFacts.blockCache_setValue .write Verif.Gen.LockFacts.blockCacheInfo.primary = true ∧
+    holdsForWholeBody Verif.Gen.LockFacts.blockCache_remove .write Verif.Gen.LockFacts.blockCacheInfo.primary = true ∧
+    holdsForWholeBody Verif.Gen.LockFacts.blockCache_SetBlockHash .write Verif.Gen.LockFacts.blockCacheInfo.primary = true ∧
+    holdsForWholeBody Verif.Gen.LockFacts.transactionCache_Set .write Verif.Gen.LockFacts.transactionCacheInfo.primary = true ∧
+    holdsForWholeBody Verif.Gen.LockFacts.transactionCache_Remove .write Verif.Gen.LockFacts.transactionCacheInfo.primary = true ∧
+    holdsForWholeBody Verif.Gen.LockFacts.transactionCache_Commit .write Verif.Gen.LockFacts.transactionCacheInfo.primary = true ∧
+    holdsForWholeBody Verif.Gen.LockFacts.transactionCache_Get .read Verif.Gen.LockFacts.transactionCacheInfo.primary = true ∧
+    holdsForWholeBody Verif.Gen.LockFacts.stateCache_commit .write Verif.Gen.LockFacts.stateCacheInfo.primary = true ∧
     Verif.Gen.LockFacts.stateCache_commit.deferred = true ∧
-    Verif.Gen.LockFacts.stateCache_commit.accesses.all (fun a => a.sub == "arg0.mu") = true ∧  -- the lock of the block cache handed in (first parameter)
+    Verif.Gen.LockFacts.stateCache_commit.accesses.all (fun a => a.sub == "arg0." ++ Verif.Gen.LockFacts.blockCacheInfo.primary) = true ∧  -- the lock of the block cache handed in (first parameter)
     Verif.Gen.LockFacts.stateCache_Get.lock = .none := by
   decide
 
